@@ -1,4 +1,4 @@
-from typing import Mapping, MutableMapping
+from typing import Any, Mapping, MutableMapping, TypeVar
 
 from spec_classes.methods.collections import MAPPING_METHODS
 from spec_classes.types import MISSING
@@ -26,7 +26,21 @@ class MappingMutator(CollectionAttrMutator):
             )
         return value_or_index, self.collection.get(value_or_index, MISSING)
 
+    @property
+    def _key_type(self):
+        """
+        The type of the keys of the mapping (if annotated), otherwise `Any`.
+        """
+        args = getattr(self.attr_spec.type, "__args__", None)
+        if args and len(args) == 2 and not isinstance(args[0], TypeVar):
+            return args[0]
+        return Any
+
     def _inserter(self, index, item):
+        if not check_type(index, self._key_type):
+            raise ValueError(
+                f"Attempted to add an invalid key `{repr(index)}` to `{self.attr_spec.qualified_name}`. Expected key of type `{type_label(self._key_type)}`."
+            )
         if not check_type(item, self.attr_spec.item_type):
             raise ValueError(
                 f"Attempted to add an invalid item `{repr(item)}` to `{self.attr_spec.qualified_name}`. Expected item of type `{type_label(self.attr_spec.item_type)}`."
